@@ -17,6 +17,9 @@ theorem C14_translator_read_every_item : translatorErrors = [] := by decide +ker
 -- @theorem C14_keys_and_guards_not_clone_copy_default_send : neither ThreadKey nor any struct that stores a ThreadKey (the guards handed to users) implements or derives Clone, Copy, Default or Send
 theorem C14_keys_and_guards_not_clone_copy_default_send : c14_keyLikeImpls = [] := by decide +kernel
 
+-- @theorem C14_hold_tokens_cannot_be_duplicated : no struct whose Drop releases a raw lock (MutexRef, RwLockReadRef, RwLockWriteRef), and no struct containing one by value, implements or derives Clone, Copy or Default, and the set of hold tokens found in the source is non-empty (the rule is not vacuous)
+theorem C14_hold_tokens_cannot_be_duplicated : c14_holdTokenImpls = [] ∧ holdTokens.length ≥ 3 := by decide +kernel
+
 -- @theorem C14_key_fields_private_and_key_not_send : every field holding a key is private, ThreadKey's own fields are private, and ThreadKey contains PhantomData<*const ()> (so it and everything containing it is !Send by the auto-trait rules)
 theorem C14_key_fields_private_and_key_not_send : c14_keyFields = [] := by decide +kernel
 
